@@ -61,3 +61,28 @@ def describe_state(s):
 
 def finite(*xs):
     return all(isinstance(x, (int, float)) and math.isfinite(x) for x in xs)
+
+
+_REAL = {}
+
+
+def real_curve_sets():
+    """the measured diffusion-curve sets shipped with the repository's tests (realistic, multi-temperature data on which
+    the Powell optimiser is known to run out of evaluations for higher orders); [] when the data files are absent"""
+    import glob
+    import os
+    import pathlib
+    import pyvaporation
+    from pyvaporation.diffusion_curve import DiffusionCurveSet
+    root = os.path.join(os.path.dirname(os.path.dirname(os.path.abspath(pyvaporation.__file__))), 'tests', 'default_membranes')
+    if root not in _REAL:
+        out = []
+        for p in sorted(glob.glob(os.path.join(root, '*', 'diffusion_curve_sets', '*.csv'))):
+            try:
+                cs = DiffusionCurveSet.load(pathlib.Path(p))
+                if sum(len(c) for c in cs.diffusion_curves) >= 6:
+                    out.append((os.path.relpath(p, root), cs))
+            except Exception:
+                pass
+        _REAL[root] = out
+    return _REAL[root]
